@@ -147,7 +147,7 @@ func vfC13Gen(rt *rapid.T) vfC13Case {
 				stored = append(stored, vecs[id])
 			}
 			op := vfVecOp{Op: "search", Vec: q}
-			op.K = rapid.IntRange(-2, len(live)+2).Draw(rt, "k")
+			op.K = vfGenK(rt, -2, len(live), 2)
 			op.Thr = vfGenThreshold(rt, kind, q, stored)
 			op.IDs = vfGenIDSubset(rt, all)
 			op.NP = rapid.IntRange(-2, c.NList+2).Draw(rt, "nprobes")
